@@ -151,6 +151,7 @@ def acquire_case(ctx, rng, reqs, meta, kind=None, forced=None):
     noise = rng.choice([None, 0, 0.05, 'dict']) if kind == 'lcbsc' else None
     if forced:
         d, bounds, noise, n = forced['d'], forced['bounds'], forced['noise'], forced['n']
+        wide = forced.get('wide', wide)
     names = ['t%d' % i for i in range(d)]
     if noise == 'dict':
         noise = {nm: rng.choice([0, 0.1, 0.02]) for nm in names}
@@ -158,6 +159,8 @@ def acquire_case(ctx, rng, reqs, meta, kind=None, forced=None):
                 gp_points=rng.randint(6, 14), p_outside=rng.choice([0, 1 / 3, 1 / 3]))
     if kind == 'randmaxvar':
         case.update(n=rng.choice([1, 2, 5, 10, 25]), n_samples=rng.choice([20, 50]), init_from_prior=rng.random() < .5)
+        if forced:
+            case.update(n=forced['n'], n_samples=50)
     gp = make_gp(rng, d, bounds, case['gp_points'])
     prior = ModelPrior(make_model(d, bounds, wide))
     kw = dict(seed=case['seed'], n_inits=3, max_opt_iters=30)
@@ -565,6 +568,10 @@ def process(ctx, n_acq, n_pick, n_bo, n_grad):
                dict(d=2, bounds=[(-2.0, -1.0), (5.0, 6.0)], noise={'t0': 0.2, 't1': 0.5}, n=4)):
         if not ctx.enough():
             acquire_case(ctx, rng, reqs, meta, kind='lcbsc', forced=fz)
+    # RandMaxVar with a prior much wider than the box (the chain wants to leave it), long chains, many points
+    for fz in (dict(d=1, bounds=[(0.0, 1.0)], noise=None, n=20, wide=True), dict(d=2, bounds=[(0.0, 1.0), (-1.0, 1.0)], noise=None, n=20, wide=True)):
+        if not ctx.enough():
+            acquire_case(ctx, rng, reqs, meta, kind='randmaxvar', forced=fz)
     for _ in range(n_acq):
         if ctx.enough():
             break
